@@ -76,7 +76,7 @@ def step (s : S) (ws : List String) : S × String :=
   | ["inject", id, kind, tid, data] =>
     match id.toNat?, tid.toNat?, data.toNat? with
     | some id, some tid, some d =>
-      let a := match kind with | "put" => Inject.put tid d | "del" => Inject.del tid | _ => Inject.touch tid
+      let a := match kind with | "put" => Inject.put tid d | "del" | "gc" => Inject.del tid | _ => Inject.touch tid
       after s { s.r with injects := s.r.injects ++ [(id, a)] }
     | _, _, _ => (s, "bad-op")
   | ["advance", ms] =>
